@@ -259,12 +259,12 @@ class AsyncFIXConnection:
                 " order to get valid response handling"
             )
 
-        encoded_msg = self._codec.encode(msg, self._session).encode("utf-8")
+        encoded_msg = self._codec.encode(msg, self._session).encode("latin-1")
 
         msg_raw = encoded_msg.replace(b"\x01", b"|")
         self.log.debug(
             f"[{self._connection_role.name}]:send_msg ({self._connection_state.name})"
-            f" {repr(msg.msg_type)}\n\t {msg_raw.decode()}\n"
+            f" {repr(msg.msg_type)}\n\t {msg_raw.decode('latin-1')}\n"
         )
 
         self._socket_writer.write(encoded_msg)
